@@ -4,6 +4,7 @@
 -/
 import Driver.MountFS
 import Driver.CmdFlow
+import Driver.GCS
 
 open Desync Driver
 
@@ -14,7 +15,7 @@ partial def loop (h : IO.FS.Stream) (out : IO.FS.Stream) : IO Unit := do
   if l.isEmpty || l.startsWith "#" then
     loop h out
   else
-    let r := runLineCmdFlow l
+    let r := runLineGCS l
     out.putStrLn r
     out.flush
     loop h out
